@@ -397,6 +397,7 @@ def oracle_check(rules: T.Sequence[str], edges: T.Sequence[dict], exists: T.Call
     missing = sorted({i for e in edges for i in edge_all_ins(e) + e['vals'] if i not in producers and not exists(i)})
     res['closed'] = not missing
     unreached = []
+    pairs = []
     cache: T.Dict[str, T.Set[str]] = {}
     for root, t in reqs:
         if root not in cache:
@@ -413,8 +414,10 @@ def oracle_check(rules: T.Sequence[str], edges: T.Sequence[dict], exists: T.Call
             cache[root] = seen
         if t not in cache[root]:
             unreached.append(f'{root}>{t}')
+            pairs.append((root, t))
     res['reach'] = not unreached
     res['wf'] = all(res[k] for k in ('rules', 'unique', 'acyclic', 'closed', 'reach'))
+    res['unreached_pairs'] = pairs
     res['detail'] = {'badrules': bad[:3], 'dup': dups[:3], 'missing': missing[:5], 'unreached': unreached[:5]}
     return res
 
@@ -495,7 +498,17 @@ FIXED_PROJECTS: T.List[T.Tuple[str, T.Dict[str, str], T.List[str]]] = [
         'meson.build': "project('p', 'c')\nexecutable('x', 'main.c', 'a_b.c', 'a/b.c')\n",
         'main.c': 'int main(void) { return 0; }\n', 'a_b.c': 'int f(void){return 1;}\n', 'a/b.c': 'int g(void){return 1;}\n'}, []),
     ('fixed-pipe', PIPE_PROJECT, []),
+    ('fixed-override-test-exe', {
+        # known finding: a test whose program is an executable found through meson.override_find_program
+        'meson.build': ("project('ov', 'c')\nexe = executable('tool', 'main.c', build_by_default: false)\n"
+                        "meson.override_find_program('tool', exe)\nprog = find_program('tool')\ntest('t', prog)\n"),
+        'main.c': 'int main(void) { return 0; }\n'}, []),
 ]
+
+
+# planted pairs that collide on every Linux host (the reserved-name kinds depend on the tools installed)
+DEFINITE_COLLISIONS = {'ct-ct-same-output', 'ct-output-vs-exe', 'ct-output-vs-staticlib', 'same-name-same-dir',
+                       'flat-same-name', 'flat-ct-vs-exe', 'shared-vs-module', 'library-vs-static'}
 
 
 def targets_with_pipe(art: dict) -> bool:
@@ -536,6 +549,18 @@ def run_job(job: dict) -> dict:
         return rec
     art = projgen.read_build(bld)
     rec['ninja'] = art['ninja']
+    rec['override'] = False
+    for root, _dirs, files in os.walk(src):
+        if 'meson.build' in files:
+            try:
+                with open(os.path.join(root, 'meson.build'), encoding='utf-8', errors='replace') as fh:
+                    if 'override_find_program' in fh.read():
+                        rec['override'] = True
+            except OSError:
+                pass
+    rec['test_programs'] = sorted({py_canon(os.path.relpath(ts['cmd'][0], bld))
+                                   for ts in (art['tests'] or []) + (art['benchmarks'] or [])
+                                   if ts.get('cmd') and os.path.isabs(ts['cmd'][0])})
     rec['pipe'] = targets_with_pipe(art) or (spec is not None and any('|' in t['name'] or any('|' in o for o in (t.get('outputs') or []))
                                                                       for t in spec.get('targets', [])))
     # requirements from introspection
@@ -684,6 +709,13 @@ def judge_project(ctx: Ctx, rec: dict, lean_check: T.Optional[str], lean_parse: 
         if not ov['wf']:
             failed = [k for k in CLAUSES[1:] if not ov[k]]
             key = known_key or f'illformed:{"+".join(failed)}:{label}'
+            if failed == ['reach'] and rec.get('override') and not known_key:
+                # only the program of a test, reached through find_program on an overridden name, is missing below the
+                # test prerequisite target: Backend.get_testlike_targets does not unwrap build.LocalProgram
+                progs = set(rec.get('test_programs', []))
+                if all(root in ('meson-test-prereq', 'meson-benchmark-prereq') and t in progs
+                       for root, t in ov['unreached_pairs']):
+                    key = 'test-program-via-override-not-in-test-prereq'
             ctx.violation(key, f'build.ninja of a successfully configured project is not well-formed: {failed} {ov["detail"]}', case)
             ctx.tag('oracle:illformed:' + '+'.join(failed))
         else:
@@ -744,7 +776,12 @@ def run_projects(ctx: Ctx, oracle_only: bool = False, jobs_fn=make_jobs) -> T.Li
                 ctx.tag('matrix:' + label[4:])
             ctx.seen_nontrivial((label, job.get('seed') or job.get('name')))
             if group == 'collision':
-                ctx.tag('collision-accepted:' + label.split(':', 1)[1])
+                kind = label.split(':', 1)[1]
+                ctx.tag('collision-accepted:' + kind)
+                if kind in DEFINITE_COLLISIONS:
+                    # the property's last clause: such a pair must be rejected at configure time
+                    ctx.violation(f'collision-accepted:{kind}',
+                                  f'two targets whose outputs collide ({kind}) configured successfully', replay_case(r))
             if len(ctx.samples) < 4 and group == 'gen':
                 ctx.sample({'label': label, 'seed': job.get('seed'), 'edges': ne, 'reqs': len(r['reqs'])})
         else:
@@ -1213,6 +1250,11 @@ def replay(ctx: Ctx, rep: dict) -> None:
         job['scratch'] = os.path.join(scratch, 'r')
         rec = run_job(job)
         print('configured:', rec['ok'], rec.get('error'))
+        label = str(case.get('label') or '')
+        if rec['ok'] and label.startswith('collision:') and label.split(':', 1)[1] in DEFINITE_COLLISIONS:
+            kind = label.split(':', 1)[1]
+            print('colliding targets were accepted at configure time')
+            ctx.violation(f'collision-accepted:{kind}', f'two targets whose outputs collide ({kind}) configured successfully', case)
         if rec['ok']:
             t = enc(rec['ninja'])
             reqs = [x for rt in rec['reqs'] for x in rt]
